@@ -106,14 +106,15 @@ def takeDigits : Bytes → Bytes × Bytes
   | [] => ([], [])
   | c :: r => if isDigit c then let (d, t) := takeDigits r; (c :: d, t) else ([], c :: r)
 
+/-- the one comment `readInstanceNumber` accepts before `#` -/
+def leadComment (fuel : Nat) (s0 : Bytes) : Outcome Bytes :=
+  match s0 with
+  | '/' :: '*' :: r => skipComment fuel ('*' :: r)
+  | _ => .ok s0
+
 /-- `sectionReader::readInstanceNumber`; `.ok (0, _)` is the "no instance here" answer -/
 def readInstanceNumber (fuel : Nat) (s : Bytes) : Outcome (Nat × Bytes) :=
-  let s0 := skipWS s
-  let afterComment : Outcome Bytes :=
-    match s0 with
-    | '/' :: '*' :: r => skipComment fuel ('*' :: r)
-    | _ => .ok s0
-  match afterComment with
+  match leadComment fuel (skipWS s) with
   | .ok s1 =>
     match skipWS s1 with
     | '#' :: r =>
